@@ -11,7 +11,7 @@ boxes (see expr.py) and offers them to rule objects.
 import sys
 from collections import deque
 from body import BodyInfo
-from expr import (show, box_part, table_of, mentions_site, mentions, is_const, const, MAX, depth, mk_deref,
+from expr import (is_pop_call, show, box_part, table_of, mentions_site, mentions, is_const, const, MAX, depth, mk_deref,
                   mk_field, mk_ref)
 
 ALL = frozenset("ZOMU")       # Zero, One, Many(2..MAX-1), Uninit(MAX)
@@ -499,7 +499,7 @@ class Engine:
             inner = d[1]
             known = st.variant(inner)
             # Option-valued results of next()/pop(): `otherwise` of a one-armed switch is the other variant
-            if v == "otherwise" and (inner in self.two_variant or (inner[0] == "call" and (inner[2] == "core::iter::Iterator::next" or inner[2].endswith("::pop")))):
+            if v == "otherwise" and (inner in self.two_variant or (inner[0] == "call" and (inner[2] == "core::iter::Iterator::next" or is_pop_call(inner[2])))):
                 if listed == ["1"]:
                     v = "0"
                 elif listed == ["0"]:
@@ -542,7 +542,7 @@ class Engine:
     def variant_feasible(self, st, inner, v):
         """Iterator::next on an iterator over a table known to be empty cannot yield Some;
         Vec::pop on a vector that was pushed to since the last removal cannot yield None."""
-        if inner[0] == "call" and inner[2].startswith("alloc::vec::Vec::<T") and inner[2].endswith("::pop") and v == "0" and inner[3]:
+        if inner[0] == "call" and (inner[2].startswith("alloc::vec::Vec::<T") or inner[2].startswith("alloc::collections::VecDeque::<T")) and is_pop_call(inner[2]) and v == "0" and inner[3]:
             if ("popne", inner[1]) in st.flags:
                 return None
         if inner[0] == "call" and inner[2] == "core::iter::Iterator::next" and v == "1":
@@ -763,6 +763,8 @@ class Engine:
         line = t.get("line")
         if adt in GUARD_ADTS:
             return [Ev("release", b, None, guard=e, line=line)]
+        if holds_guard(ty):
+            return [Ev("release", b, None, guard=e, line=line), Ev("libdrop", b, None, ty=ty["s"], value=e, line=line)]
         if adt in HANDLE_ADTS:
             return [Ev("handle_drop", b, None, handle=HANDLE_ADTS[adt], box=mk_field(e, "ptr", adt), value=e, ty=ty["s"], line=line)]
         dp = ty.get("dp", 1 if (ty.get("hp") and ty.get("nd")) else 0)
@@ -791,6 +793,11 @@ class Engine:
                 if x is not None:
                     res = x
         evs, diverges = self.call_events(b, t, callee, args, res, st)
+        # a value that *contains* table guards (a Vec / Option / tuple of `Ref<Links>` built by library code,
+        # e.g. `iter().map(|l| l.links().borrow()).collect()`): the borrows inside it were taken out of sight
+        dty = self.fn.locals[t["dst"]["l"]]["ty"] if not t["dst"]["p"] else {}
+        if holds_guard(dty) and not any(ev.kind == "borrow" for ev in evs) and not mentions_guard_arg(args, st):
+            evs.append(Ev("borrow", b, None, callee=(callee or {}).get("def"), box=None, cell=None, mut="RefMut<" in dty.get("s", ""), guard=res, method="container", line=t.get("line")))
         pre = st
         for ev in evs:
             st = self.emit(ev, st)
@@ -888,6 +895,14 @@ class Engine:
                     A("moveout", box=bp[0], field=bp[1], how=d.rsplit("::", 1)[1], res=res)
                 else:
                     A("set", box=bp[0], field=bp[1], value=("unk", d), cls="other:" + d)
+            elif args and d.startswith("core::mem::"):
+                # the *contents* of a link table taken / replaced through a guard: every record of that object is discarded
+                for a in (args[:2] if d.endswith("swap") else args[:1]):
+                    tb = table_of(a)
+                    if tb is not None:
+                        A("tbl", op="replace", table=tb, recv=a, args=args, res=res, container="core::mem")
+                        A("tblwrite", box=tb, op="replace", recv=a, args=args)
+                        A("discard", box=tb, how=d.rsplit("::", 1)[1], res=res)
             return evs, False
         if d in ("core::ptr::copy_nonoverlapping", "core::ptr::copy", "core::ptr::mut_ptr::<impl *mut T>::copy_from_nonoverlapping",
                  "core::ptr::mut_ptr::<impl *mut T>::copy_from", "core::ptr::const_ptr::<impl *const T>::copy_to_nonoverlapping",
@@ -944,8 +959,9 @@ class Engine:
             A("ptr_eq", a=args[0], b_=args[1])
             return evs, False
         # ---- vectors / collections of the trace and teardown
-        if d.startswith("alloc::vec::Vec::<T"):
+        if d.startswith("alloc::vec::Vec::<T") or d.startswith("alloc::collections::VecDeque::<T"):
             m = d.rsplit("::", 1)[1]
+            m = {"push_back": "push", "push_front": "push", "pop_front": "pop", "pop_back": "pop"}.get(m, m)
             A("vec", op=m, recv=args[0] if args else None, args=args, res=res)
             if m in VEC_ALLOC:
                 A("alloc", what=d)
@@ -1039,6 +1055,22 @@ def arith_chain(e):
         e = e[2]
         n += 1
     return n
+
+
+def holds_guard(ty):
+    """Does a value of this type own `Ref`/`RefMut` guards of link tables without being one itself?"""
+    sname = ty.get("s", "") if ty else ""
+    if ty.get("peel", 0) == 0 and ty.get("adt") in GUARD_ADTS:
+        return False
+    if ty.get("k") in ("ref", "refmut", "ptr", "rawptr") or sname.startswith("&") or sname.startswith("*"):
+        return False
+    return ("cell::Ref<" in sname or "cell::RefMut<" in sname) and "Links<" in sname
+
+
+def mentions_guard_arg(args, st):
+    """The call merely passes an already tracked guard value on (Option::unwrap, Result::ok, ...)."""
+    gs = [g[0] for g in st.guards]
+    return any(a == g or mentions(a, lambda x, g=g: x == g) for a in args for g in gs)
 
 
 def widen_steps(e):
